@@ -1,4 +1,5 @@
 import HopModel.Model.Wire
+import HopModel.Model.TargetInfo
 import HopModel.Driver.Util
 /-
 Driver for C18 / C18junk (every line is its own case; byte strings in hex, `-` = empty).
@@ -181,6 +182,20 @@ def step (_ : Unit) (ws : List String) : Unit × String :=
   | ["ua-dec", h] => dec? h decUA hexOrDash
   | "pf-enc" :: r => enc? (pf? r) encPF
   | ["pf-dec", h] => dec? h decPF showPF
+  -- target info: ti-enc <userhex> <hosthex> <porthex>; ti-dec <hex>.  Outside the model: `unmodelled`
+  | ["ti-enc", u, h, p] => match fromHex u, fromHex h, fromHex p with
+    | some u, some h, some p =>
+      if h ≠ [] ∧ h.all hostChar ∧ p.all isDigit ∧ p.length ≤ 5 then encOut (encTI ⟨u, h, p⟩) else "unmodelled"
+    | _, _, _ => "bad-op"
+  | ["ti-dec", hx] => match fromHex hx with
+    | some b =>
+      match rdStr b with
+      | (.ok s, rest, _) =>
+        (match parseTI s with
+         | some t => s!"{hexOrDash t.user} {hexOrDash t.host} {hexOrDash t.port} {hexOrDash rest}"
+         | none => "unmodelled")
+      | (.error _, _, _) => "err"
+    | none => "bad-op"
   | ["xst-enc", "conf"] => encOut (.ok (encXst .conf))
   | ["xst-enc", "fail", m] => enc? (fromHex m) (fun m => .ok (encXst (.fail m)))
   | ["xst-dec", h] => dec? h decXst (fun s => match s with | .conf => "conf" | .fail m => "fail:" ++ hexOrDash m)
